@@ -1,7 +1,104 @@
-//! C08: not implemented yet.
-use crate::util::Args;
+//! C08: the btor2 reader gives every construct its btor2 meaning.
+//! One case per line:
+//!   (case ID (profile P) (origin "..") (muts "..") (vseed N) (text "...") (impl R))
+//!   R as for C18: (ok (nodes ..) (sys ..)) | (err) | (panic "file:line" "msg")
+//! The driver runs the reference interpreter Spec/Btor2Sem.v on the text and the extracted evaluator on
+//! the implementation's system, under valuations derived deterministically from `vseed`.
+//! Hosts the shared btor2 generator module used by C08, C09 and C18.
+#[path = "btorgen.rs"]
+pub mod btorgen;
+use crate::dump::quote;
+use crate::rng::Rng;
+use crate::sexp::read_cases;
+use crate::util::*;
+use btorgen::*;
+use std::io::Write;
 
-pub fn run(_args: &Args) {
-    eprintln!("C08: harness module not implemented yet");
-    std::process::exit(2);
+pub fn run(args: &Args) {
+    silence_stderr();
+    let mut rng = Rng::new(args.seed);
+    let mut out = std::io::BufWriter::new(std::fs::File::create(&args.out).expect("out file"));
+    let mut stats = Stats::default();
+    let mut distinct = std::collections::HashSet::new();
+    let prof = profile_name();
+    if let Some(path) = args.get("cases-in") {
+        for c in read_cases(path).iter() {
+            let id = c.list()[1].atom().to_string();
+            let text = c.field("text").expect("text")[0].atom().to_string();
+            let origin = c.field("origin").map(|f| f[0].atom().to_string()).unwrap_or_default();
+            let muts = c.field("muts").map(|f| f[0].atom().to_string()).unwrap_or_default();
+            let vseed = c.field("vseed").map(|f| f[0].num()).unwrap_or(1);
+            let r = crate::c18::impl_field(&text, &mut stats);
+            distinct.insert(text.clone());
+            let line = format!("(case {id} (profile {prof}) (origin {}) (muts {}) (vseed {vseed}) (text {}) (impl {r}))", quote(&origin), quote(&muts), quote(&text));
+            stats.sample(&line, 2);
+            writeln!(out, "{line}").unwrap();
+        }
+    }
+    let files = shipped_files();
+    let small: Vec<&(String, String)> = files.iter().filter(|(_, t)| t.lines().count() <= 300).collect();
+    if args.get("files") == Some("all") {
+        for (k, (name, text)) in files.iter().enumerate() {
+            let r = crate::c18::impl_field(text, &mut stats);
+            distinct.insert(text.clone());
+            stats.bump("origin", "file-unmutated");
+            let line = format!("(case f{k} (profile {prof}) (origin {}) (muts \"\") (vseed {}) (text {}) (impl {r}))", quote(name), rng.next_u64() % 1000000, quote(text));
+            writeln!(out, "{line}").unwrap();
+        }
+    }
+    for id in 0..args.count {
+        let mut r = rng.fork();
+        let kind = r.below(100);
+        let (mut lines, origin, n_mut): (Vec<String>, String, u64) = if kind < 88 {
+            let mut cfg = BtorGenCfg::default();
+            if r.chance(1, 3) {
+                cfg.widths = vec![1, 1, 2, 3, 4];
+            }
+            cfg.n_ops = (3, 40);
+            let mut g = BtorGen::new(&mut r, cfg);
+            g.gen_file();
+            for o in g.ops_used.iter() {
+                stats.bump("gen_ops", o);
+            }
+            let l = g.lines.clone();
+            // 2/3 well-formed as generated, 1/3 with one (mostly sort-breaking) mutation
+            let n = if r.chance(2, 3) { 0 } else { 1 };
+            (l, "generated".to_string(), n)
+        } else if kind < 94 && !small.is_empty() {
+            let (name, text) = *r.pick(&small);
+            (text.lines().map(|l| l.to_string()).collect(), format!("file:{name}"), r.below(2))
+        } else {
+            let (l, name) = edge_template(&mut r);
+            (l, format!("edge:{name}"), 0)
+        };
+        let mut muts: Vec<&'static str> = vec![];
+        for _ in 0..n_mut {
+            // prefer the mutations that change sorts / operands / operators
+            let mut m = "noop";
+            for _ in 0..6 {
+                let mut copy = lines.clone();
+                m = mutate_once(&mut r, &mut copy);
+                if matches!(m, "sort_id" | "operand_id" | "negation" | "width" | "op_swap" | "const_value" | "swap_lines" | "dup_line" | "del_line") {
+                    lines = copy;
+                    break;
+                }
+                m = "noop";
+            }
+            muts.push(m);
+            stats.bump("mutation", m);
+        }
+        clamp_huge_sorts(&mut lines);
+        let okind = origin.split(':').next().unwrap().to_string();
+        stats.bump("origin", &format!("{okind}{}", if muts.is_empty() { "" } else { "+mut" }));
+        let mut text = lines.join("\n");
+        text.push('\n');
+        let res = crate::c18::impl_field(&text, &mut stats);
+        distinct.insert(text.clone());
+        let vseed = r.next_u64() % 1000000;
+        let line = format!("(case {id} (profile {prof}) (origin {}) (muts {}) (vseed {vseed}) (text {}) (impl {res}))", quote(&origin), quote(&muts.join(",")), quote(&text));
+        stats.sample(&line, 2);
+        writeln!(out, "{line}").unwrap();
+    }
+    stats.add("distinct_cases", distinct.len() as u64);
+    stats.write(&args.out);
 }
